@@ -578,6 +578,16 @@ def label_value(data: str) -> int:
     return number
 
 
+def fragment_value(data: str) -> int:
+    # RFC 8955 section 4.2.2.12: the fragment bitmask is one octet and its four high bits must be
+    # zero on encoding. `fragment 0x10` sent a reserved bit and `fragment 256` a two octet bitmask.
+    _str_bad_fragment = 'you tried to filter a flow using fragment bits which are not defined ..'
+    value = Fragment.named(data)
+    if value & ~(Fragment.DONT | Fragment.IS | Fragment.FIRST | Fragment.LAST):
+        raise ValueError(_str_bad_fragment)
+    return value
+
+
 # Protocol Shared
 
 
@@ -711,7 +721,7 @@ class FlowFragment(IOperationByteShort, BinaryString, FlowIPv4, FlowIPv6):
     ID: ClassVar[int] = 0x0C
     NAME: ClassVar[str] = 'fragment'
     FLAG: ClassVar[bool] = True
-    converter: ClassVar[Callable[[str], BaseValue]] = converter(Fragment.named, Fragment)
+    converter: ClassVar[Callable[[str], BaseValue]] = converter(fragment_value, Fragment)
     # IOperationByteShort, so the operator byte may announce a two byte value: decode with
     # _number rather than ord, which takes a single byte and raised TypeError on the rest
     decoder: ClassVar[Callable[[bytes], BaseValue]] = decoder(_number, Fragment)
